@@ -325,6 +325,37 @@ fn constructors() -> Result<u64, (String, String)> {
         n += 1;
     }
     let _ = std::fs::remove_dir_all(&dir);
+    // magnitudes: 1000 application headers (through the constructor list, add_header, with_header)
+    // arrive once each and in the order given; a 1 MiB + 1 string declares its length
+    for via in 0..3 {
+        let hs: Vec<Header> = (0..1000).map(|i| Header::from_bytes(format!("X-H{}", i).as_bytes(), format!("v{}", i).as_bytes()).unwrap()).collect();
+        let mut r = match via {
+            0 => Response::new(StatusCode(200), hs.clone(), Cursor::new(b"ok".to_vec()), Some(2), None),
+            _ => Response::new(StatusCode(200), vec![], Cursor::new(b"ok".to_vec()), Some(2), None),
+        };
+        for h in &hs {
+            match via {
+                1 => r.add_header(h.clone()),
+                2 => r = r.with_header(h.clone()),
+                _ => (),
+            }
+        }
+        let mut out = Vec::new();
+        r.raw_print(&mut out, HTTPVersion(1, 1), &[], false, None).unwrap();
+        let m = crate::httpparse::parse_one(&out, 0, false).map_err(|e| ("many-headers".to_string(), e.what))?;
+        let got: Vec<(String, String)> = m.headers.iter().filter(|(n, _)| n.starts_with("X-H")).cloned().collect();
+        let want: Vec<(String, String)> = (0..1000).map(|i| (format!("X-H{}", i), format!("v{}", i))).collect();
+        if got != want {
+            return Err(("many-headers".into(), format!("1000 application headers supplied (way {}), {} arrived; first difference at {:?}", via, got.len(), got.iter().zip(want.iter()).position(|(a, b)| a != b))));
+        }
+        n += 1;
+    }
+    let big = "y".repeat((1 << 20) + 1);
+    let r = Response::from_string(big.clone());
+    if r.data_length() != Some(big.len()) {
+        return Err(("ctor-length".into(), "from_string of 1 MiB + 1 declares a different length".into()));
+    }
+    n += 1;
     Ok(n)
 }
 
@@ -378,7 +409,7 @@ impl Check for C19 {
     }
     fn rule(&self, tier: Tier) -> String {
         format!(
-            "all header lists of length 0..{} over {} atoms (Connection, Trailer, Transfer-Encoding, Upgrade, Content-Length valid/invalid, Content-Type x4, Date, Server, X-A x3, X-B; canonical/lower/upper case names) x 4 ways of supplying them (constructor, add_header, with_header, mixed) = {} responses, printed and compared with the reference header policy; plus the constructor cases (from_string ASCII/2-byte/4-byte UTF-8/70000 bytes, from_data, from_file 0/5/70000 bytes, empty, with_data); non-trivial = non-empty list",
+            "1000 application headers through each entry point (order and multiplicity), from_string of 1 MiB + 1; all header lists of length 0..{} over {} atoms (Connection, Trailer, Transfer-Encoding, Upgrade, Content-Length valid/invalid, Content-Type x4, Date, Server, X-A x3, X-B; canonical/lower/upper case names) x 4 ways of supplying them (constructor, add_header, with_header, mixed) = {} responses, printed and compared with the reference header policy; plus the constructor cases (from_string ASCII/2-byte/4-byte UTF-8/70000 bytes, from_data, from_file 0/5/70000 bytes, empty, with_data); non-trivial = non-empty list",
             max_len(tier), atoms().len(), n_lists(tier) * 4
         )
     }
